@@ -148,7 +148,16 @@ def _stop(b):
     return stop
 
 
-BODIES = {"sh": _sh, "stop": _stop, "fmain_kw": _fmain_kw, "summ_in": _summ_in, "summ": _summ, "fmain": _fmain, "vleaf": _vleaf, "vtop": _vtop, "leaf": _leaf, "mid": _mid, "top": _top, "fanout": _fanout, "idt": _idt, "boom": _boom, "rec": _rec, "guard": _guard,
+def _smain(b):
+    def smain(t):
+        CALLS["smain"] += 1
+        tag, x = t
+        # shallow validity is requested at CALL time (not in mid's decorator)
+        return [tag, T("mid").options(check_valid="shallow")(x + 1000 * b)]
+    return smain
+
+
+BODIES = {"smain": _smain, "sh": _sh, "stop": _stop, "fmain_kw": _fmain_kw, "summ_in": _summ_in, "summ": _summ, "fmain": _fmain, "vleaf": _vleaf, "vtop": _vtop, "leaf": _leaf, "mid": _mid, "top": _top, "fanout": _fanout, "idt": _idt, "boom": _boom, "rec": _rec, "guard": _guard,
           "big": _big, "usebig": _usebig}
 
 
